@@ -488,4 +488,113 @@ impl Prop for C04 {
     fn supervisor_phase(&self, sup: &mut Sup) {
         crate::xcheck::binary_crosscheck(sup, false);
     }
+    fn fuzz_decoders(&self) -> Vec<&'static str> {
+        vec!["C04", "C04R"]
+    }
+}
+
+// ---------------------------------------------------------------------------------------------
+// C04R — raw decoder for the coverage-guided tier: option set from the first tape values, the
+// rest is the text stream, byte for byte.  Domain (judged on the bytes, no model involved): no
+// ESC and no CR anywhere, no line beginning with a construct-opening marker, unlimited line
+// length, no --relative-paths (which rewrites diffstat-shaped lines).  Then the only permitted
+// change is the replacement of invalid UTF-8, and the oracle is exact: stdout = lossy(stdin),
+// line for line.  libFuzzer's byte mutations (with a dictionary of near-markers) look for text
+// that some handler claims although it is not a construct.
+
+pub struct C04R;
+
+impl Prop for C04R {
+    fn id(&self) -> &'static str {
+        "C04R"
+    }
+    fn cases(&self, _tier: Tier) -> usize {
+        0
+    }
+    fn tape_len(&self, _t: Tier) -> usize {
+        crate::props::c03::RAW_HEADER + 1024
+    }
+    fn rule(&self) -> String {
+        "raw decoder of C04 (coverage-guided tier only)".to_string()
+    }
+    fn assumptions(&self) -> Vec<String> {
+        Vec::new()
+    }
+    fn check(&self, t: &mut Tape, ctx: &mut Ctx) -> Verdict {
+        let mut head = t.fork(crate::props::c03::RAW_HEADER);
+        let mut cfg = gen_cfg(&mut head);
+        cfg.set("max-line-length", "0");
+        cfg.unset("relative-paths");
+        cfg.env.git_prefix = None;
+        let mut input = t.rest_bytes();
+        while input.last() == Some(&0) {
+            input.pop();
+        }
+        if input.iter().any(|b| *b == 0x1b || *b == b'\r') {
+            return Verdict::Skip("raw text with ESC or CR");
+        }
+        let text = String::from_utf8_lossy(&input).into_owned();
+        if text.split('\n').any(|l| starts_with_marker(l)) {
+            return Verdict::Skip("raw text with a construct-opening marker");
+        }
+        ctx.class("raw-text");
+        let out = match exec::run_cfg(&cfg, ctx, &input) {
+            Ok(o) => o,
+            Err(mut f) => {
+                f.detail = json!({"case": exec::case_json(&cfg, &input)});
+                f.traits = crate::props::c03::failure_traits(&cfg, &input);
+                return Verdict::Fail(f);
+            }
+        };
+        // expected: every input line, lossily decoded, followed by a newline
+        let mut want: Vec<u8> = Vec::with_capacity(input.len() + 1);
+        let mut lines: Vec<&[u8]> = input.split(|b| *b == b'\n').collect();
+        if lines.last().map(|l| l.is_empty()).unwrap_or(false) {
+            lines.pop();
+        }
+        for l in &lines {
+            want.extend_from_slice(String::from_utf8_lossy(l).as_bytes());
+            want.push(b'\n');
+        }
+        if out != want {
+            let a: Vec<&[u8]> = out.split(|b| *b == b'\n').collect();
+            let b: Vec<&[u8]> = want.split(|b| *b == b'\n').collect();
+            let i = a.iter().zip(b.iter()).position(|(x, y)| x != y).unwrap_or(a.len().min(b.len()));
+            return Verdict::Fail(
+                Failure::new("C04:not-identical", format!("text-only stream (no marker, no escape sequence): output differs from input at line {}: wrote `{}`, expected `{}`", i + 1, exec::printable(a.get(i).copied().unwrap_or(b"<end>")), exec::printable(b.get(i).copied().unwrap_or(b"<end>"))))
+                    .with(json!({"case": exec::case_json(&cfg, &input), "output_printable": exec::printable(&out[..out.len().min(3000)])})),
+            );
+        }
+        if !text.is_ascii() || std::str::from_utf8(&input).is_err() {
+            let mut h = fnv(&input);
+            h = fnv_add(h, &cfg.fingerprint().to_le_bytes());
+            ctx.nontrivial(h);
+        }
+        Verdict::Pass
+    }
+    fn fuzz_seeds(&self, seed: u64) -> Vec<Vec<u8>> {
+        // commit-message-like prose, git status output, a build log: free text close to markers
+        let bodies: [&str; 4] = [
+            "On branch main\nYour branch is up to date with 'origin/main'.\n\nChanges not staged for commit:\n\tmodified:   src/delta.rs\n\nno changes added to commit\n",
+            "Author: A U Thor <a@example.com>\nDate:   Mon Jan 1 00:00:00 2024 +0000\n\n    Fix the thing\n\n    - item one\n    + item two\n    -- not a header\n    ++ neither\n    index of things\n",
+            "  Compiling foo v0.1.0\nwarning: unused variable: `x`\n --> src/main.rs:3:9\n  |\n3 |     let x = 1;\n  |         ^\n\nerror: aborting due to 1 previous error\n",
+            " commit is a word\n Binary search tree\n rename it later\n similarity 90%\n Only the brave\n Submodules are fun\n old modes of thought\n <<<<<<< nothing\n======= nothing\n>>>>>>> nothing\n",
+        ];
+        let mut out = Vec::new();
+        for (i, b) in bodies.iter().enumerate() {
+            for k in 0..3u64 {
+                let mut v: Vec<u8> = Vec::new();
+                for j in 0..crate::props::c03::RAW_HEADER as u64 {
+                    let h = if k == 0 { 0 } else { (fnv(&[(seed & 255) as u8, i as u8, k as u8, j as u8, 4]) >> 20) as u32 };
+                    v.extend_from_slice(&h.to_le_bytes());
+                }
+                v.extend_from_slice(b.as_bytes());
+                out.push(v);
+            }
+        }
+        out
+    }
+    fn fuzz_decoders(&self) -> Vec<&'static str> {
+        Vec::new()
+    }
 }
